@@ -111,6 +111,7 @@ def step (rf : Nat) (st : Streams) (s : St) (stepStr : String) (implAns : String
   | ["Q", "X", "T", id] =>
     put s.c (match readRanges (s.c.rcfg rf hbTie) s.c.idx s.c.desc (str? id) with | .ok l => showNatList l | .error _ => "err")
   | ["Q", "X", "Z"] => put s.c (",".intercalate (readZones s.c.idx) ++ "/" ++ toString rf)
+  | ["K", ident] => put (cleanup s.c ident) "-"
   | ["Q", "C"] => put s.c (showCounts (counts s.c zoneNames))
   | ["Q", "A"] => put s.c (showDesc s.c.desc)
   | ["Q", "I", id] => put s.c (match s.c.desc.get? (str? id) with | some i => showInst i | none => "err")
